@@ -6,6 +6,8 @@
  */
 #include "ares_private.h"
 #include "vh.h"
+#include <signal.h>
+#include <sys/time.h>
 
 #define DS_MAXOPS 4096
 static uint64_t ds_trigrams; /* rolling op-kind trigram for the fingerprint */
@@ -41,6 +43,55 @@ static void ds_abandon(const void *p)
   if (p != NULL && __lsan_ignore_object) {
     __lsan_ignore_object(p);
   }
+}
+
+/* A broken link structure can turn a library loop (skip-list search, bucket scan) into an endless
+ * one.  Each case gets a budget of user CPU time (not wall time, so machine load does not matter)
+ * that is some thirty times what the slowest legitimate case (a large hash-table case, ~0.25 s) needs; when it runs out the case
+ * is reported as hung and the worker exits so that the driver resumes after it. */
+#define DS_CASE_CPU_SECONDS 8
+static const char *ds_profile_name = "?";
+
+static void ds_hang_handler(int sig)
+{
+  char               buf[160];
+  char               num[24];
+  size_t             n = 0, k = 0;
+  unsigned long long v = (unsigned long long)vh_cur_case;
+  const char        *a = "V ", *b = " ds:", *c = ":hang | case exceeded its CPU budget (endless loop in a container operation)\n";
+  const char        *p;
+  (void)sig;
+  do {
+    num[k++] = (char)('0' + v % 10);
+    v /= 10;
+  } while (v && k < sizeof(num));
+  for (p = a; *p; p++) {
+    buf[n++] = *p;
+  }
+  while (k) {
+    buf[n++] = num[--k];
+  }
+  for (p = b; *p; p++) {
+    buf[n++] = *p;
+  }
+  for (p = ds_profile_name; *p && n < 60; p++) {
+    buf[n++] = *p;
+  }
+  for (p = c; *p && n < sizeof(buf); p++) {
+    buf[n++] = *p;
+  }
+  if (write(1, buf, n) < 0) {
+    _exit(4);
+  }
+  _exit(3);
+}
+
+static void ds_watchdog_arm(void)
+{
+  struct itimerval it;
+  memset(&it, 0, sizeof(it));
+  it.it_value.tv_sec = DS_CASE_CPU_SECONDS;
+  setitimer(ITIMER_VIRTUAL, &it, NULL);
 }
 
 #define OP(kind)       \
@@ -86,13 +137,16 @@ int main(int argc, char **argv)
     fprintf(stderr, "unknown profile %s\n", a.profile);
     return 2;
   }
-  ds_tag = vh_fnv_str(VH_FNV_INIT, a.profile);
+  ds_tag          = vh_fnv_str(VH_FNV_INIT, a.profile);
+  ds_profile_name = a.profile;
+  signal(SIGVTALRM, ds_hang_handler);
   ares_library_init(ARES_LIB_INIT_ALL);
   for (i = a.first; i < a.first + a.count; i++) {
     vh_rng_t rng;
     int      k;
     vh_rng_seed(&rng, vh_case_seed(a.seed, a.profile, i));
     vh_case_begin(i);
+    ds_watchdog_arm();
     ds_trigrams  = 0;
     ds_removals  = 0;
     ds_nops      = 0;
